@@ -267,8 +267,13 @@ func tokOfMsg(m *dnsmsg.Msg) int {
 	return 0
 }
 
+var own *vtrace.Own
+
 func installSink() {
 	verifhook.SetSink(func(name string, args []any) {
+		if own != nil && own.Handle(name, args) {
+			return
+		}
 		switch name {
 		case "rt.req", "rt.done", "rt.rule", "rt.fwd", "cache.get", "cache.store", "cache.stored", "pf.reserve", "pf.done", "lim.cl":
 		default:
@@ -422,6 +427,9 @@ func (in *inst) send(lst, src string, q qspec, wait time.Duration, hdr map[strin
 func ttlJS(t uint32) []int { return []int{int(t >> 16), int(t & 0xffff)} }
 
 func (in *inst) logRecv(qn int, lst string, status int, raw []byte) {
+	if own != nil && vtrace.PoisonRun(raw, 6) {
+		own.T.Emit("own.poison", "where", "client response on "+lst)
+	}
 	r := new(dns.Msg)
 	if err := r.Unpack(raw); err != nil {
 		in.tr.Emit("cl.recv", "qn", qn, "lst", lst, "http", status, "ok", false, "size", len(raw), "wire", vtrace.Bytes(raw[:min(len(raw), 600)]))
